@@ -27,6 +27,7 @@ COQ = os.path.join(ROOT, "coq")
 FORBIDDEN = re.compile(
     r"\b(Admitted|admit|Axiom|Axioms|Parameter|Parameters|Conjecture|Hypothesis|Variable|Variables)\b"
     r"|Unset\s+Guard|bypass_check|type-in-type|impredicative-set|Admit\s+Obligations"
+    r"|\b\w*_no_check\b|\bnative_compute\b"
 )
 
 
